@@ -80,7 +80,7 @@ def strip_lean_comments(src: str) -> str:
 
 def forbidden_tokens():
     hits = []
-    for f in sorted(LEAN.glob("GcmpyModel/**/*.lean")) + [LEAN / "Driver.lean", LEAN / "GcmpyModel.lean"]:
+    for f in sorted(LEAN.glob("GcmpyModel/**/*.lean")) + [LEAN / "Driver.lean"]:
         if "/Driver/" in str(f) or f.name == "Driver.lean":
             continue  # the driver is executed, never trusted for a theorem; still no sorry allowed there
         code = strip_lean_comments(f.read_text())
